@@ -415,8 +415,8 @@ def clause_controls(ctx, lines):
 
     todo = [(n, cl, fn, None) for n, cl, fn in CORRUPTIONS] + [("Encrypt hands the remote a DEK used before", "DOC: FreshDEK", None, fresh)]
     jobs = []
-    for name, clause, fn, special in todo:
-        rng = random.Random(ctx.seed * 31 + len(name))
+    for ji, (name, clause, fn, special) in enumerate(todo):
+        rng = random.Random(ctx.seed * 31 + ji)
         start = rng.randrange(max(1, len(lines) // 2))
         found = None
         for k in list(range(start, len(lines))) + list(range(0, start)):
@@ -433,14 +433,14 @@ def clause_controls(ctx, lines):
                 break
         if not found:
             raise vlib.Infra("clause control: no recorded call to apply '%s' to" % name)
-        jobs.append((name, clause, found))
+        jobs.append((ji, name, clause, found))
 
     def work(job):
-        name, clause, (k, c) = job
+        ji, name, clause, (k, c) = job
         a, b = window(k)
         sub = lines[a:b]
         sub[k - a] = json.dumps(c)
-        p = os.path.join(ctx.scratch, "cc.%d.ndjson" % k)
+        p = os.path.join(ctx.scratch, "cc.%d.%d.ndjson" % (ji, k))
         open(p, "w").write("\n".join(sub) + "\n")
         r = ctx.tlc(TRACE, env=dict(VERIF_TRACE=p, VERIF_START=1), workers=1)
         os.remove(p)
